@@ -1,6 +1,7 @@
 SPECIFICATION Spec
 CONSTANTS
   Nows = {0}
+  Pads = {0}
   Kinds = {"ssoRoot"}
 POSTCONDITION TraceAccepted
 CHECK_DEADLOCK FALSE
